@@ -4,6 +4,7 @@ import (
 	"fmt"
 	"io"
 	"os"
+	"path/filepath"
 )
 
 func tryRenameFile(from string, to string) error {
@@ -44,6 +45,12 @@ func copyFileContents(src, dst string) (err error) {
 		return err
 	}
 	defer safelyCloseFile(in)
+
+	// stage the new content next to the target and rename it into place: a failure or a crash
+	// half way through must not leave a truncated target behind
+	if staged, stageErr := copyViaSiblingTemp(in, dst); staged || stageErr != nil {
+		return stageErr
+	}
 	if err = verifStep("copy.create_dst"); err != nil {
 		return err
 	}
@@ -62,6 +69,53 @@ func copyFileContents(src, dst string) (err error) {
 		return err
 	}
 	return out.Sync()
+}
+
+// copyViaSiblingTemp copies in to a temporary file in dst's directory and renames that over dst.
+// It reports false (and no error) when the directory does not allow this (cannot create the
+// temporary file there, or cannot rename over dst, e.g. a bind-mounted file); the caller then
+// falls back to writing dst directly.
+func copyViaSiblingTemp(in *os.File, dst string) (bool, error) {
+	info, err := in.Stat()
+	if err != nil {
+		return false, err
+	}
+	staging, err := os.CreateTemp(filepath.Dir(dst), ".yq-inplace-*")
+	if err != nil {
+		return false, nil
+	}
+	renamed := false
+	defer func() {
+		if !renamed {
+			tryRemoveTempFile(staging.Name())
+		}
+	}()
+	if _, err = io.Copy(staging, in); err != nil {
+		safelyCloseFile(staging)
+		return false, err
+	}
+	if err = staging.Sync(); err != nil {
+		safelyCloseFile(staging)
+		return false, err
+	}
+	if err = os.Chmod(staging.Name(), info.Mode()); err != nil {
+		safelyCloseFile(staging)
+		return false, err
+	}
+	if err = changeOwner(info, staging); err != nil {
+		safelyCloseFile(staging)
+		return false, err
+	}
+	if err = staging.Close(); err != nil {
+		return false, err
+	}
+	if err = os.Rename(staging.Name(), dst); err != nil {
+		// cannot replace dst this way: rewind and let the caller write dst directly
+		_, seekErr := in.Seek(0, io.SeekStart)
+		return false, seekErr
+	}
+	renamed = true
+	return true, nil
 }
 
 func SafelyCloseReader(reader io.Reader) {
